@@ -133,6 +133,8 @@ def tokBrief : Tok → String
   | .estr v => "estr" ++ showStr v
   | .bstr v => "bstr" ++ showStr v
   | .qident v => "qident" ++ showStr v
+  | .ustr v => "ustr" ++ showStr v
+  | .uident v => "uident" ++ showStr v
   | .dollar t b => "dollar" ++ showStr t ++ showStr b
   | .word v => "word" ++ showStr v
   | .num v => "num" ++ showStr v
